@@ -7,6 +7,7 @@
 -/
 import LLTD.Props.C04
 import LLTD.Lemmas.TranslatedWireEq
+import LLTD.Lemmas.TranslatedHelloChain
 
 namespace LLTD.C04T
 open LLTD LLTD.Spec LLTD.TWEq
@@ -77,6 +78,19 @@ theorem wired_no_wifi_translated (base : TW.Env) (c : Cfg) (g : Glob) (buf : Lis
 theorem attrs_of_translated (c : Cfg) (g : Glob) (hr : C04.CfgRange c) :
     helloTlvs c g = encodeTlvs (helloProps c g) ∧ decodeAttrs (helloProps c g) = expectedAttrs c g :=
   ⟨helloTlvs_eq c g, C04.roundtrip c g hr⟩
+
+/-- **the whole property list**: the translated writers, called in answerHello's order with answerHello's offset bookkeeping
+    (`TChain.helloChain`: that composition is transcribed by hand, the writers are the translated ones) on a zeroed buffer with room,
+    leave behind exactly the model's property list followed by the untouched zeros, report its length - and the mapper decoding it
+    reads the interface's attributes -/
+theorem hello_properties_translated (base : TW.Env) (c : Cfg) (g : Glob) (pre : List Nat) (k : Nat)
+    (hc : CfgOk c) (hr : C04.CfgRange c) (hb4 : isBytes c.ipv4) (hh : g.host.length < 18446744073709551616)
+    (hl : c.ssid.length < 18446744073709551616) (he : TChain.EnvOk base) (hk : (helloTlvs c g).length ≤ k) :
+    TChain.helloChain (envOf c g base) c.wifi (pre ++ List.replicate k 0) pre.length
+        = (pre ++ (helloTlvs c g ++ List.replicate (k - (helloTlvs c g).length) 0), (helloTlvs c g).length)
+    ∧ helloTlvs c g = encodeTlvs (helloProps c g) ∧ decodeAttrs (helloProps c g) = expectedAttrs c g :=
+  ⟨TChain.helloChain_writes base c g hc hr.iftype hr.speed hr.mode hr.rate hr.rssiLo hr.rssiHi hb4 hh hl he pre k hk,
+   helloTlvs_eq c g, C04.roundtrip c g hr⟩
 
 /-- the hypotheses are satisfiable: a concrete wired record -/
 example : CfgOk { mac := [2, 0, 0, 0, 0, 1], mtu := 1500 } ∧ C04.CfgRange { mac := [2, 0, 0, 0, 0, 1], mtu := 1500 } := by
